@@ -47,8 +47,10 @@ TEXT = {
     'C04': ('Coq theorems for every limit L and buffer size: at the blank line, size-limit error (L,n) iff n > L with no '
             'byte after the terminator needed; every delivered body has the declared length <= L (invariant over the run); '
             'a terminated line is rejected for length iff line+CRLF > BUF, an unterminated one iff BUF bytes arrived; carried to '
-            'every segmentation of the implementation model by the C01 refinement. The server-side clauses (limit fixed at '
-            'accept time, 400 text) are exercised by the server correspondence only. Tie: BUFFER_SIZE/MAX_PAYLOAD_SIZE '
+            'every segmentation of the implementation model by the C01 refinement. Server-side clauses: through HttpServer::requests one IN '
+            'event equals the specification parser on carry ++ bytes read with the connection\'s limit (fixed at accept time), the '
+            '400 for SizeLimitExceeded is queued on that connection and its body names both numbers (proved); also compared byte '
+            'for byte on real sockets. Tie: BUFFER_SIZE/MAX_PAYLOAD_SIZE '
             'literals; differential run at L in the property\'s set with the stream cut right after the header terminator and '
             'line lengths 1000..1100 at varying offsets; the iff is also evaluated on the implementation alone.',
             'DESIGN.md section 5 C04', 'Coq proof (decision rules as bi-implications + run invariant) + differential run'),
@@ -67,8 +69,11 @@ TEXT = {
     'C13': ('Coq theorems: a step emits Continue v iff it is the blank line ending a header block with expect set and '
             '0 < Content-Length <= L, exactly one, with the request\'s version, with no byte after the terminator needed; over any '
             'stream the interim responses are in order those of delivered requests with body and expect flag plus the one whose '
-            'body is awaited; carried to the implementation model\'s response queue for every schedule by C01. The server-level '
-            'clause (client receives it without sending the body) is exercised by the server correspondence.',
+            'body is awaited; carried to the implementation model\'s response queue for every schedule by C01. Server-level '
+            'clause: through HttpServer::requests the interim responses queued by a read are exactly those of the specification '
+            'parser, appended to that connection\'s unsent output, and (C08 progress, clients keeping connections open) delivered '
+            'after finitely many polls without the body being sent; also checked on real sockets (Expect head alone / after a '
+            'complete request in the same segment / with its body).',
             'DESIGN.md section 5 C13', 'Coq proof (iff + run invariant) + differential run with output flushed between header block and body'),
     'C02': ('Coq theorems: a request line is accepted iff it is METHOD SP URI SP VERSION with table METHOD/VERSION and a '
             'non-empty UTF-8 URI without SP, fields verbatim; error precedence shape > method > URI > version; and the grammar as '
@@ -114,7 +119,13 @@ TEXT = {
             'connection instance that issued it (a connection with an outstanding token is never reaped: in-flight count = '
             'number of its tokens); respond changes only that connection and drops the response when it is closed; events '
             'touch only the connection they name; bytes a connection writes are a prefix of the serialisations enqueued on it '
-            '(C06). PARTIAL: no single end-to-end provenance theorem; delivery to the peer is K3 (kernel contract). Decided on '
+            '(C06); for worlds in which no client has closed, a poll only extends each connection\'s own wire by server-generated '
+            'replies and respond appends the response to the token owner\'s wire and to no other; and over ALL histories (clients '
+            'closing, descriptor numbers reused): one map beta from connection instances to clients is right at every moment, a '
+            'response supplied with token (fd,g) reaches the entry of instance g = client beta g, bytes enter a client\'s receive '
+            'queue only from the unsent output of a connection of that client (or as its own 503), and unsent output has only two '
+            'sources (own server-generated replies, responses with that entry\'s token). PARTIAL: the concatenation of these links '
+            'into one sentence about the whole byte stream a client reads is not a single theorem; delivery to the peer is K3 (kernel contract). Decided on '
             'real Unix sockets with tagged requests and echoing responses, incl. close-with-in-flight + reconnect + late answer.',
             'DESIGN.md section 5 C07', 'Coq proof (world invariant, inductive over events/respond/flush/sweep) + real-socket correspondence'),
     'C08': ('Coq theorems: the interest invariant (state / pending output / epoll interest agree) holds between API calls and is '
@@ -122,10 +133,16 @@ TEXT = {
             'lost wake-up (unread bytes on a connection awaiting input, unsent output, hang-up or a waiting client enable the '
             'poll); no spin (nothing ready once no input, no unsent output and no waiting client remain, requests may be '
             'unanswered); yields = the whole-stream parser\'s deliveries for whatever read sizes the kernel chose (C01). '
-            'PARTIAL: the progress measure / finitely-many-polls and end-to-end delivery are not proved; responses larger than '
-            'the socket buffer are not modelled. Real-socket histories with irregular polls and respond-then-flush check '
+            'Progress, for clients that keep their connections open: every poll enabled by truthful readiness, in any event order, '
+            'strictly decreases the well-founded measure (unread client bytes + waiting clients, unsent output bytes), so every '
+            'chain of polls is finite (Acc), and when nothing is ready no waiting client, unread input or unsent output remains; '
+            'conservation: each connection\'s wire (client-received ++ unsent) is only extended, by server-generated replies; end '
+            'to end: after respond, polling while ready terminates with the whole response in the client\'s receive queue; flush writes '
+            'everything queued without polling; these worlds are exactly what well-behaved histories reach (invariant over all '
+            'such histories); one IN event through HttpServer::requests equals the specification parser on carry ++ bytes read. '
+            'Responses larger than the socket buffer are not modelled (K3). Real-socket histories with irregular polls and respond-then-flush check '
             'yield counts, full delivery and quiescence.', 'DESIGN.md section 5 C08',
-            'Coq proof (interest invariant + readiness lemmas) + real-socket correspondence'),
+            'Coq proof (interest invariant, readiness lemmas, well-founded progress measure, conservation) + real-socket correspondence'),
     'C09': ('Coq theorems: from every world satisfying the invariant, for every batch of events allowed by the kernel contract '
             'in any order, the polling function yields and keeps the invariant (never InvalidWrite, never the unwrap panic; only '
             'other outcome: u32 overflow of an in-flight counter); handling an event leaves every other connection untouched; '
